@@ -54,6 +54,10 @@ var c16PanicAllowed = map[string]string{
 	"flows/definition/migrations.GetTemplateCatalog": "called by the per-version migration functions with their own constant version; specdata/templates.json carries a catalog for each (TestCurrentTemplateCatalog pins it)",
 }
 var c16NilAllowed = map[string]string{}
+var c16IndexAllowed = map[string]string{
+	"utils/jsonpath.visit/path[0]":  "paths are \"$\" + the constant entries of specdata/templates.json (every entry has at least one step; TestCurrentTemplateCatalog pins the catalog) and the recursion only descends while len(rem) != 0",
+	"utils/jsonpath.visit/path[1:]": "same: len(path) >= 1 at every call",
+}
 
 func checkC16(p *core.Program, r *core.Report) {
 	r.Rule("R1", "version registry: registered versions are distinct, each is handled by the function named for it, the highest equals definition.CurrentSpecVersion; migrate() applies exactly the versions in (from, to], in ascending order, with the function registered for that version, stamps spec_version with the applied version and returns its input untouched when nothing applies")
@@ -80,6 +84,8 @@ func checkC16(p *core.Program, r *core.Report) {
 	uncheckedAsserts(p, r, fns, "R2", c16AssertAllowed, "definition-migration code (input is untrusted JSON)")
 	c16R3(p, r, fns)
 	r.Count("const_offset_string_sites", c04R5(p, r, fns, "R4", c16SliceAllowed))
+	r.Rule("R7", "every constant index or slice bound on a slice in these packages is within a length established on every path or listed")
+	r.Count("const_index_sites", constIndexRule(p, r, fns, "R7", c16IndexAllowed, false))
 	r.Rule("R6", "in the generic-JSON migrations, every write into a map that comes from a discarded-ok assertion on decoded JSON (directly or through an accessor such as GetLanguageTranslation) is controlled by a nil / ok test")
 	c16R6(p, r, fns)
 	// R5
